@@ -1234,7 +1234,8 @@ def r01_14_gregorian_fast_tables(ctx: Ctx) -> RuleResult:
         else:
             rr.fail(f"{c.name}._get_start_of_year_in_days", f"year {bad[0]}: the table gives {bad[1]}, the arithmetic {bad[2]}", f"{c.mod.rel}:{c.node.lineno}")
         # (b) / (c) first and last day of every month of sampled years
-        years = sorted({first, first + 1, first + 3, first + 4, 1999, 2000, 2001, 2024, last - 1, last})
+        # one year outside the table on each side as well: the fast paths must not be taken there (index 0 of the month table is a placeholder)
+        years = sorted({first - 1, first, first + 1, first + 3, first + 4, 1999, 2000, 2001, 2024, last - 1, last, last + 1})
         fwd = M.find_method(c, "_get_days_since_epoch")
         dec = M.find_method(c, "_get_gregorian_year_month_day_calendar_from_days_since_epoch")
         bad_f = bad_d = None
